@@ -161,6 +161,16 @@ namespace
                     if ((dlist_empty(h) != 0) != m[l].empty()) violate("C01/c-dlist-empty", "%s: list %d dlist_empty=%d reference size %zu", when, l, dlist_empty(h), m[l].size());
                     if (!dlist_is_correct(h)) violate("C01/c-dlist-is_correct", "%s: dlist_is_correct(list %d) is false", when, l);
                     if (dlist_check(h, ni + 2) != (int)m[l].size()) violate("C01/c-dlist-check", "%s: dlist_check(list %d)=%d reference %zu", when, l, dlist_check(h, ni + 2), m[l].size());
+                    {
+                        // the bounded walks at and around the exact bound: the ring of n entries closes after n + 1 steps
+                        int n_ = (int)m[l].size();
+                        for (int b = std::max(0, n_ - 1); b <= n_ + 3; b++)
+                        {
+                            int want = b >= n_ + 1 ? n_ : -1;
+                            if (dlist_check(h, b) != want || dlist_check_reversed(h, b) != want)
+                                violate("C01/c-dlist-check", "%s: dlist_check(list %d, bound %d) = %d / reversed %d, a ring of %d entries gives %d", when, l, b, dlist_check(h, b), dlist_check_reversed(h, b), n_, want);
+                        }
+                    }
                     for (int i = 0; i < ni; i++)
                     {
                         bool in = std::find(m[l].begin(), m[l].end(), i) != m[l].end();
@@ -1051,6 +1061,25 @@ namespace
             size_t longest = 0;
             int both = 0;
             if (nj > 1000) probe("population_over_1000");
+            if (nj > 1000)
+            {
+                // a long C list just below the documented walk limit of dlist_is_correct (1000 steps): 997..999 entries are
+                // still a correct list
+                int k = 997 + nj % 3;
+                std::vector<dlist_head> nodes((size_t)k);
+                dlist_head lh;
+                dlist_init(&lh);
+                for (int i = 0; i < k; i++)
+                {
+                    dlist_init(&nodes[(size_t)i]);
+                    if (i & 1) dlist_add_tail(&nodes[(size_t)i], &lh);
+                    else dlist_add(&nodes[(size_t)i], &lh);
+                }
+                if (dlist_size(&lh) != k || dlist_size_reversed(&lh) != k || dlist_check(&lh, k + 1) != k || dlist_check(&lh, k) != -1 || dlist_check_reversed(&lh, k + 1) != k)
+                    violate("C01/c-dlist-check", "a C list of %d entries: size %d / %d, dlist_check at the exact bound %d", k, dlist_size(&lh), dlist_size_reversed(&lh), dlist_check(&lh, k + 1));
+                if (!dlist_is_correct(&lh)) violate("C01/c-dlist-is_correct", "dlist_is_correct is false for a well-formed C list of %d entries", k);
+                probe("c_list_just_below_walk_limit");
+            }
             auto check = [&](const char *when) {
                 std::vector<int> f, b;
                 size_t guard = 0;
